@@ -25,6 +25,7 @@ if len(OTHER.split("/")) != len(SID.split("/")):
 KEYS = ["comment", "author"]
 VALS = ["x", "a much longer value than the others", 7, "é✓"]
 _R = list(range(64))
+NEXT = envstr("VF_NEXT", "author")
 FIRST = envint("VF_FIRST_WRITE", 0)      # 1: no side-car before the write (first write)
 
 
@@ -92,18 +93,25 @@ def crash(at: int, nbytes: int) -> bool:
         return fail("after-crash-data-is-neither-old-nor-new")
     if _data(OTHER) != other_before:
         return fail("other-entity-changed")
-    # the next write must succeed and be read back
+    # the next write must succeed and be read back (VF_NEXT=shorten: it makes the data SHORTER than the interrupted write's)
+    nk, nv = ("author", "after") if NEXT != "shorten" else (KEYS[new_k], "s")
     try:
-        ok = w.set(Sid(SID), author="after")
+        ok = w.set(Sid(SID), **{nk: nv})
     except Exception:
         return fail("next-write-fails-after-crash")
     after = _data(SID)
-    if not ok or after.get("author") != "after":
+    if not ok or after.get(nk) != nv:
         return fail("next-write-not-read-back")
     base = got
     for k, v in base.items():
-        if k != "author" and after.get(k) != v:
+        if k != nk and after.get(k) != v:
             return fail("next-write-lost-surviving-data")
+    try:
+        ok2 = w.update(Sid(SID), {"n2": 2})
+    except Exception:
+        return fail("second-next-write-fails-after-crash")
+    if not ok2 or _data(SID).get(nk) != nv:
+        return fail("second-next-write-not-read-back")
     # a search over the folder still works and finds the entity
     globstub.UNIVERSE[:] = list(memfs.FS.keys())
     found = list(FindInPaths(CONFIG).find(SEARCH, as_sid=False))
